@@ -121,6 +121,10 @@ FamDef == [
   fname |-> [ alpha |-> Singles(<<"a", ".", "*", "?", "[", "]", "!", "\\">>), maxt |-> 3,
               sa |-> <<"a", ".", "b">>, sn |-> 3, la |-> <<"a", ".">>, ln |-> 3,
               modes |-> { {E, "Filenames"}, {E, "Filenames", "NoGlobStar"}, {E, "Filenames", "NoGlobStar", "GlobLeadingDot"} } ],
+  \* file names: bracket expressions with slashes and escapes (`[\/]`, `a[/]`, `[a\]/]`)
+  fnbrk |-> [ alpha |-> Singles(<<"[", "]", "\\", "/", "a">>), maxt |-> 4,
+              sa |-> <<"a", "/", "[", "]", "\\">>, sn |-> 2, la |-> <<"a", "/">>, ln |-> 3,
+              modes |-> { {E, "Filenames", "NoGlobStar"} } ],
   \* file names, case-insensitive (shopt nocaseglob), as the interpreter passes them
   fncase |-> [ alpha |-> Singles(<<"a", "B", "*", "?", "[", "]", "-">>), maxt |-> 3,
               sa |-> <<"a", "A", "b", "B">>, sn |-> 2, la |-> <<"a", "B">>, ln |-> 3,
@@ -240,9 +244,9 @@ Pre(rest, item) == IF rest.dead THEN [rest EXCEPT !.items = <<item>> \o @] ELSE 
 \* (a backslash quotes the next character; at the end of the pattern there is none).
 Endpoint(p, j) ==
   IF At(p, j) = "\\" THEN
-       IF j + 1 > Len(p) THEN [ok |-> FALSE, next |-> 0, c |-> "END"]
-       ELSE [ok |-> TRUE, next |-> j + 2, c |-> p[j + 1]]
-  ELSE [ok |-> TRUE, next |-> j + 1, c |-> At(p, j)]
+       IF j + 1 > Len(p) THEN [ok |-> FALSE, next |-> 0, c |-> "END", esc |-> TRUE]
+       ELSE [ok |-> TRUE, next |-> j + 2, c |-> p[j + 1], esc |-> TRUE]
+  ELSE [ok |-> TRUE, next |-> j + 1, c |-> At(p, j), esc |-> FALSE]
 
 RECURSIVE BrScan(_, _, _, _)
 BrScan(p, j, first, fn) ==
@@ -288,8 +292,8 @@ BrScan(p, j, first, fn) ==
                                                 hiclass |-> h.c = "[" /\ At(p, m.next + 1) = "[" /\ At(p, m.next + 2) \in {":", ".", "="}]>> \o @,
                                    !.bad = IF Ord(m.c) > Ord(h.c) THEN @ \cup {"reversed-range"} ELSE @]
        ELSE LET rest == BrScan(p, m.next, FALSE, fn) IN
-            IF ~rest.ok THEN Pre(rest, [t |-> "ch", c |-> m.c])
-            ELSE [rest EXCEPT !.items = <<[t |-> "ch", c |-> m.c]>> \o @,
+            IF ~rest.ok THEN Pre(rest, [t |-> "ch", c |-> m.c, esc |-> m.esc])
+            ELSE [rest EXCEPT !.items = <<[t |-> "ch", c |-> m.c, esc |-> m.esc]>> \o @,
                               !.bad = IF c = "[" /\ At(p, j + 1) \in {":", ".", "="}
                                       THEN @ \cup {"unterminated-class"} ELSE @]
 
@@ -389,8 +393,8 @@ ParseFrom(p, i, X) ==
               \* text and the rest of the subject as plain strings
               <<[k |-> "raw", txt |-> SubSeq(p, i, Len(p)), bad |-> {"unclosed-group"}]>>
     ELSE IF c = "\\" THEN
-         IF i = Len(p) THEN <<[k |-> "lit", c |-> "\\", bad |-> {"trailing-backslash"}, oc |-> FALSE]>>
-         ELSE <<[k |-> "lit", c |-> p[i + 1], bad |-> {}, oc |-> FALSE]>> \o ParseFrom(p, i + 2, X)
+         IF i = Len(p) THEN <<[k |-> "lit", c |-> "\\", bad |-> {"trailing-backslash"}, oc |-> FALSE, esc |-> TRUE]>>
+         ELSE <<[k |-> "lit", c |-> p[i + 1], bad |-> {}, oc |-> FALSE, esc |-> TRUE]>> \o ParseFrom(p, i + 2, X)
     ELSE IF c = "*" THEN
          IF X.gstar /\ At(p, i + 1) = "*" /\ (i = 1 \/ p[i - 1] = "/") /\ At(p, i + 2) \in {"/", "END"}
          THEN IF At(p, i + 2) = "/"
@@ -404,7 +408,7 @@ ParseFrom(p, i, X) ==
          IF X.fn /\ "slashbracket" \in X.dev /\ ~b.ok /\ Bracket(p, i, FALSE).ok THEN
               \* (deviation) the text of a bracket expression that contains a slash, taken literally
               LET e == Bracket(p, i, FALSE).next IN
-              [n \in 1..(e - i) |-> [k |-> "lit", c |-> p[i + n - 1], bad |-> {}, oc |-> FALSE]] \o ParseFrom(p, e, X)
+              [n \in 1..(e - i) |-> [k |-> "lit", c |-> p[i + n - 1], bad |-> {}, oc |-> FALSE, esc |-> FALSE]] \o ParseFrom(p, e, X)
          ELSE IF b.ok THEN <<[k |-> "set", neg |-> b.neg, items |-> b.items, bad |-> b.bad, oc |-> FALSE,
                          dashfirst |-> LET j0 == IF b.neg THEN i + 2 ELSE i + 1 IN p[j0] = "-" /\ At(p, j0 + 1) # "]"]>>
                         \o ParseFrom(p, b.next, X)
@@ -412,8 +416,8 @@ ParseFrom(p, i, X) ==
                  /\ ~(b.why = "dash" /\ \E n \in 1..Len(b.items) : ItemHas(b.items[n], "[", X)) THEN
               <<[k |-> "never", oc |-> OpenClassAfter(p, i + 1),
                  bad |-> IF p[Len(p)] = "\\" THEN {"trailing-backslash"} ELSE {}]>>
-         ELSE <<[k |-> "lit", c |-> "[", bad |-> {}, oc |-> OpenClassAfter(p, i + 1)]>> \o ParseFrom(p, i + 1, X)
-    ELSE <<[k |-> "lit", c |-> c, bad |-> {}, oc |-> FALSE]>> \o ParseFrom(p, i + 1, X)
+         ELSE <<[k |-> "lit", c |-> "[", bad |-> {}, oc |-> OpenClassAfter(p, i + 1), esc |-> FALSE]>> \o ParseFrom(p, i + 1, X)
+    ELSE <<[k |-> "lit", c |-> c, bad |-> {}, oc |-> FALSE, esc |-> FALSE]>> \o ParseFrom(p, i + 1, X)
 
 ParsePat(p, X) == ParseFrom(p, 1, X)
 
@@ -479,6 +483,10 @@ ElHas(e, tag) ==
                                /\ e.items[n].t = "class"
                                /\ e.items[n].name \in {<<"u","p","p","e","r">>, <<"l","o","w","e","r">>}
     [] tag = "neg"       -> e.k = "ext" /\ e.op = "!"
+    [] tag = "rawneg"    -> e.k = "raw" /\ \E q \in 1..(Len(e.txt) - 1) : e.txt[q] = "!" /\ e.txt[q + 1] = "("
+    [] tag = "classdash" -> e.k = "set" /\ \E n \in 1..(Len(e.items) - 2) :
+                               /\ e.items[n].t \in {"class", "coll"}
+                               /\ e.items[n + 1].t = "ch" /\ e.items[n + 1].c = "-" /\ ~e.items[n + 1].esc
     [] tag = "never"     -> e.k = "never"
     [] tag = "oc"        -> e.k \in {"lit", "never"} /\ e.oc
     [] tag = "dashfirst" -> e.k = "set" /\ e.dashfirst
@@ -528,18 +536,23 @@ AnyEl(els, tag) ==
 \*               (`[-0-9]`, `[--]`, `[^-Z]`): the "-" is an ordinary member; the code takes it as
 \*               a range operator whose start is the "[" (or "!" "^") before it and reports
 \*               "invalid range" when that character sorts after the next one.
+\*  classdash    a "-" right after a class, with more members after it (`[[:upper:]-!]`): an
+\*               ordinary member for bash (a class cannot start a range); the code takes it as a
+\*               range operator starting at the "]" that ends the class and reports "invalid
+\*               range" when "]" sorts after the next character.
 \*  rangeclass   a range whose end point is a "[" that is followed by ":" "." or "=", as in
 \*               [:-[:alpha:]: bash takes the "[" as the end point, the code starts a class.
 Devs(p, els, X) ==
   (IF AnyEl(els, "coll") THEN {"collating"} ELSE {})
   \cup (IF AnyEl(els, "oc") THEN {"openclass"} ELSE {})
-  \cup (IF AnyEl(els, "neg") THEN {"negext"} ELSE {})
+  \cup (IF AnyEl(els, "neg") \/ AnyEl(els, "rawneg") THEN {"negext"} ELSE {})
   \cup (IF AnyEl(els, "never") THEN {"deadbracket"} ELSE {})
   \cup (IF X.nocase /\ AnyEl(els, "caseclass") THEN {"nocaseclass"} ELSE {})
   \cup (IF AnyEl(els, "class") THEN {"asciiclass"} ELSE {})
   \cup (IF AnyEl(els, "rangeclass") THEN {"rangeclass"} ELSE {})
   \cup (IF X.fn /\ ~X.dot /\ AnyEl(els, "wild") THEN {"leadingdot"} ELSE {})
   \cup (IF AnyEl(els, "dashfirst") THEN {"dashfirst"} ELSE {})
+  \cup (IF AnyEl(els, "classdash") THEN {"classdash"} ELSE {})
   \cup (IF X.fn /\ "slashbracket" \notin X.dev /\ ParsePat(p, WithDev(X, {"slashbracket"})) # els
         THEN {"slashbracket"} ELSE {})
   \cup (IF X.ext /\ "groupscan" \notin X.dev /\ ParsePat(p, WithDev(X, {"groupscan"})) # els
@@ -567,7 +580,9 @@ Quirks(els, X) ==
 NegSimple(els) ==
   /\ Cardinality({ n \in 1..Len(els) : els[n].k = "ext" /\ els[n].op = "!" }) = 1
   /\ \A n \in 1..Len(els) :
-        \/ els[n].k = "lit"
+        \* "literal text" as the code sees it: no backslash, no bracket character (its HasMeta
+        \* answers true for "[" ... "]" even when that is no bracket expression)
+        \/ els[n].k = "lit" /\ ~els[n].esc /\ els[n].c \notin {"[", "]"}
         \/ /\ els[n].k = "ext" /\ els[n].op = "!"
            /\ \A a \in 1..Len(els[n].alts) : ~AnyEl(els[n].alts[a], "neg")
 
